@@ -608,6 +608,9 @@ class Machine(object):
             c.store(v)
             bound[pname] = c
         saved = getattr(self, "_frame", None)
+        if name in PURE_LIB:
+            self.events.append(("libcall", name, tuple((bound[p[0]].v if getattr(bound[p[0]], "init", False) else None)
+                                                         for p in inf_params if isinstance(bound.get(p[0]), Cell))))
         self._declare_all(callee, bound)
         self.depth += 1
         try:
@@ -637,6 +640,8 @@ class Machine(object):
                     refs.append(obj)
                     if name == "_ecb_start":
                         self._mark_init(obj)
+                        if "hfore" in obj.fields:
+                            obj.fields["hfore"].v = 9     # sentinel: lets a monitor tell the default from a literal
                 elif isinstance(obj, Arr):
                     vals.append("<array %s>" % obj.name)
                     refs.append(obj)
